@@ -32,7 +32,8 @@ type shutCase struct {
 	Workers []string `json:"workers,omitempty"`
 	After   int      `json:"after,omitempty"` // shut down after this many completed client calls
 	Seed    int64    `json:"seed,omitempty"`
-	Cp      bool     `json:"cp,omitempty"` // feedDeliver / dropFeed: the feed has a CheckpointPrefix
+	Cp      bool     `json:"cp,omitempty"`  // feedDeliver / dropFeed: the feed has a CheckpointPrefix
+	TTL     bool     `json:"ttl,omitempty"` // writer: the held write carries a 1 s expiry (the bucket's first), and the child lives past it
 }
 
 type shutResult struct {
@@ -107,7 +108,11 @@ func runShutdownScenario(c shutCase) (res shutResult) {
 		}
 		held = "gate:" + gate
 	case "writer":
-		st := s.Start("W", []string{"cas.beforePost"}, func() { _ = ds.Set("w", 0, nil, []byte(`{"w":1}`)) })
+		wexp := uint32(0)
+		if c.TTL {
+			wexp = nowSec() + 1
+		}
+		st := s.Start("W", []string{"cas.beforePost"}, func() { _ = ds.Set("w", wexp, nil, []byte(`{"w":1}`)) })
 		logf("writer -> %s", st)
 		held = "lane:W"
 	case "feedStart":
@@ -202,6 +207,9 @@ func runShutdownScenario(c shutCase) (res shutResult) {
 	time.Sleep(150 * time.Millisecond)
 	if held != "" {
 		release()
+	}
+	if c.TTL {
+		time.Sleep(2500 * time.Millisecond) // past the expiry of the held write: a timer armed after the shutdown would fire now
 	}
 	s.Stop()
 	// the unrelated bucket and (for a drop) the surviving parts still work: no lock left held
@@ -377,6 +385,7 @@ func genShutCase(rt *rapid.T) shutCase {
 	}
 	c.Release = pick(rt, []string{"after", "after", "before"}, "release")
 	c.Cp = (c.Kind == "feedDeliver" || c.Kind == "dropFeed") && chance(rt, 50, "cp")
+	c.TTL = c.Kind == "writer" && c.Shutdown != "DropDataStore" && chance(rt, 50, "ttl")
 	return c
 }
 
